@@ -247,11 +247,15 @@ func fileOp2(h afero.File, t []string) string {
 	case "read":
 		b := make([]byte, atoi(t[2]))
 		n, err := h.Read(b)
-		return fmt.Sprintf("bytes=%s err:%s", corr.Hex(b[:n]), ErrClass(err))
+		res := fmt.Sprintf("bytes=%s err:%s", corr.Hex(b[:n]), ErrClass(err))
+		scribble(b) // the buffer is the caller's: what it does with it afterwards is nobody's business
+		return res
 	case "readat":
 		b := make([]byte, atoi(t[2]))
 		n, err := h.ReadAt(b, atoi64(t[3]))
-		return fmt.Sprintf("bytes=%s err:%s", corr.Hex(b[:n]), ErrClass(err))
+		res := fmt.Sprintf("bytes=%s err:%s", corr.Hex(b[:n]), ErrClass(err))
+		scribble(b)
+		return res
 	case "write":
 		b := corr.UnHex(t[2])
 		n, err := h.Write(b)
